@@ -10,8 +10,9 @@ TB = "z3 5.1 and cvc5 (solvers), the pyvc VC generator and its CPython/built-in 
 CHECKS = {
     "C01": dict(
         level="other", design_ref="DESIGN.md 5/C01",
-        technique="bounded contract checking of Ace(line) against an independent Cisco reader + exact set algebra (regex front end is outside the deductive subset)",
-        text="Contract on Ace.__init__/line: Sem(ace) equals the independent reader's meaning of the text field by field (action, protocol, address sets through "
+        technique="contract on parsers._parse_dstport_option discharged by own VC generator; bounded contract checking of Ace(line) against an independent Cisco reader + exact set algebra (regex front end is outside the deductive subset)",
+        text="Discharged for all token lists: the destination-port/option splitter loses and invents nothing, keeps order, and the port run is maximal and consists of "
+             "digits and names of the current tables only. Contract on Ace.__init__/line: Sem(ace) equals the independent reader's meaning of the text field by field (action, protocol, address sets through "
              "prefixes and through wildcard text, port sets, flag/log tokens, sequence) and the rendered line read independently denotes the same packets. Checked "
              "natively (bounded, not proved) on the gen_ace grammar x platforms x version tables x switches.",
         note="Oracle: spec/cisco_ref.py, spec/ref_tables.py, spec/sets.py (hand written, independent). Known finding: protocol 0 <-> ip conflation (tests pin it)."),
